@@ -160,7 +160,7 @@ class GetParametersAtInstant(_NativeJudge, Contract):
         w = a["__w"]
         if out[0] != "return":
             return [("no-exception", False)]
-        r = out[1]
+        r = out[1].val if isinstance(out[1], B.OptVal) else out[1]
         ok = isinstance(r, Opaque) and r.e is not None and r.e.sort() == VIEWS
         res = [("returns-the-view-of-the-current-tree-at-the-instant", r.e == view_of(w.tree, a["__inst"]) if ok else False)]
         return res + memo_ok(I, ctx, w, w.sys, w.sys.fields["parameters"])
